@@ -291,21 +291,21 @@ PROPS["C04"] = {
 }
 
 PROPS["C05"] = {
-    "modules": ["OxiaVerif.Props.C05", "OxiaVerif.Props.ReplSafety"],
+    "modules": ["OxiaVerif.Props.C05", "OxiaVerif.Props.ReplSafety", "OxiaVerif.Props.Election"],
     "facts": ["coordinatorPersistsTermBeforeNewTerm", "newTermQuorumMajorityOverEnsembleAndRemoved", "selectNewLeaderTakesMaxTermThenOffset", "newTermRejectsLowerAndPersistsFirst",
               "updateTermFlushes", "becomeLeaderOnlyFromFencedSameTerm", "lateRequestCannotConvertLeader", "snapshotChunkTermMustEqual"],
     "trusted_base": REPLTRUST + ["durability of the term across restarts: fact 'written and flushed before adopted' plus restarts in the scripts; crashes at arbitrary file-system operations are not simulated here"],
     "assumptions": ["one BecomeLeader per term (the coordinator's discipline; a second BecomeLeader of the same term to another fenced node would be accepted)",
                     "a crash in the middle of a snapshot installation is not covered (observation D-39 in DESIGN.md)"],
     "rule": PRULE + " Oracle: a node's term never goes back (also across restarts), at most one node leads a term, an election succeeds only with answers from a majority, the installed leader answered the election. Added: scripts with the coordinator's REAL shard controller (coordinator/controllers.NewShardController) in front of the node controllers, its RPCs routed in-process, with dropped requests, lost replies, leader failures and node swaps (ops k.*; nothing is compared with the model there - retries are a matter of timing); oracle on the log of RPCs and metadata writes: every election attempt uses a fresh term that is in the metadata store before it is sent, BecomeLeader goes to a member of the answering ensemble with the highest head after a majority has answered, at most one node accepts BecomeLeader per term.",
-    "level_text": "Machine-checked proof (Lean 4) on M-Repl: the coordinator's choice is one of the candidates and no candidate has a higher head entry, term first, then offset (C05_best_log_wins, by a fold invariant with the order laws of 'better'); BecomeLeader succeeds only on a node fenced in that very term; NewTerm never lowers the term of any node whatever its outcome, and streams / truncations leave terms alone; proved model history for the node-swap election (the removed node counts for the majority but is no candidate). On A-Repl (DESIGN.md 10.7) at most one node leads a term in every reachable state and its log is that term's log (one_leader_per_term, from the inductive invariant of ReplSafety). That the term is made durable before it is used (coordinator: metadata store before NewTerm; node: written and flushed before adopted) is tied by facts. Differential runs on real controllers with restarts.",
+    "level_text": "Machine-checked proof (Lean 4) on M-Repl: the coordinator's choice is one of the candidates and no candidate has a higher head entry, term first, then offset (C05_best_log_wins, by a fold invariant with the order laws of 'better'); BecomeLeader succeeds only on a node fenced in that very term; NewTerm never lowers the term of any node whatever its outcome, and streams / truncations leave terms alone; proved model history for the node-swap election (the removed node counts for the majority but is no candidate). On A-Repl (DESIGN.md 10.7) at most one node leads a term in every reachable state and its log is that term's log (one_leader_per_term, from the inductive invariant of ReplSafety). The decision function and A-Repl are put together in Props/Election.lean: every choice chooseLeader makes from the answers of a majority fenced in the current term is an enabled becomeLeader step (coordinator_choice_enables_becomeLeader), a majority of answers always yields a choice, and the node installed holds every acknowledged own-term entry of every earlier term at its offset (coordinator_installs_leader_holding_acknowledged, with a kernel-checked run that meets the hypotheses). That the term is made durable before it is used (coordinator: metadata store before NewTerm; node: written and flushed before adopted) is tied by facts. Differential runs on real controllers with restarts.",
     "level_note": "Trusted: Lean kernel; extractor rules (electLeader step order, newTermQuorum, selectNewLeader, NewTerm, UpdateTerm, BecomeLeader); protocol harness. Observation D-39 (term lost by a crash during snapshot install) documented, not claimed.",
     "technique": "Lean 4 proof (fold invariant for the selection, per-RPC monotonicity) + regenerated facts + differential correspondence",
     "design_ref": "DESIGN.md section 6 C05",
 }
 
 PROPS["C01"] = {
-    "modules": ["OxiaVerif.Props.C01", "OxiaVerif.Props.ReplSafety"],
+    "modules": ["OxiaVerif.Props.C01", "OxiaVerif.Props.ReplSafety", "OxiaVerif.Props.Election"],
     "facts": ["becomeLeaderOnlyFromFencedSameTerm", "trackerCommitsAtRequiredAcks", "walSyncCallbacksOnlyForFlushedEntries", "walReaderServesOnlySyncedEntries",
               "newTermQuorumMajorityOverEnsembleAndRemoved", "selectNewLeaderTakesMaxTermThenOffset", "truncateComparesWithFollowerTermEntry", "cursorStartsAtTruncatedHead",
               "coordinatorPersistsTermBeforeNewTerm", "updateTermFlushes", "newTermWaitsForInFlightAppends"],
@@ -315,7 +315,7 @@ PROPS["C01"] = {
                     "A-Repl's steps are atomic and logs are durable when appended (WAL: C09/C10; acknowledgement after sync: facts); the steps' decisions are M-Repl's functions (plan, highestOfTerm, better), which are tied to the code by facts and differential runs; that every behaviour of the implementation is a sequence of A-Repl steps is argued in DESIGN.md section 10.7: checked at run time on every script (every M-Repl transition is explained by enabled A-Repl steps), not proved",
                     "disks are kept (C09/C10 for the WAL, C07 for the database); at most a minority is cut off at a time in generated scripts"],
     "rule": PRULE + " Added: elections over an ensemble with a node being removed (swap) while the leader is away; scripts with the coordinator's real shard controller (ops k.*: faults of its RPCs, leader failures, SwapNode), not compared with the model. Oracle: every write acknowledged to the client is in the committed log of, and visible on, the leader of the newest term in every later settled state / the leader the shard controller has installed.",
-    "level_text": "Machine-checked proof (Lean 4): LEADER COMPLETENESS for acknowledged writes on A-Repl, the protocol as a transition system of atomic steps (newElection, fence, becomeLeader with a fenced majority and the best head, attach with the truncation decision of the code, append, write, restart) for any number of nodes with a fixed ensemble: in every reachable state, an entry that the leader of term t wrote in its own term and that a majority has acknowledged in term t (acknowledgements are history: they may arrive after the follower moved on) is at its offset in the log of every leader of every later term (leader_completeness), and stays there in every state reachable afterwards (acknowledged_write_survives); also log matching, one leader per term, attached followers hold a prefix of their leader's log. Proof by a 16-part inductive invariant over the history state (inv_step, about 1,000 lines), with the election step from C05's selection rule and C03's attach theorem; non-vacuity by kernel-evaluated runs (demo_run_meets_hypotheses) and the boundary by d44_attach_not_enabled. On M-Repl: a write is acknowledged only at or below the leader's quorum commit offset (C01_ack_only_after_commit). PARTIAL with respect to the property's quantifier: membership changes (node swap) are outside A-Repl - proved model history that loses acknowledged writes there (known finding D-41), reproduced on real node controllers - and so are histories through the D-44 attach case. Tied to the code by eleven facts and by differential runs with partitions, restarts and elections.",
+    "level_text": "Machine-checked proof (Lean 4): LEADER COMPLETENESS for acknowledged writes on A-Repl, the protocol as a transition system of atomic steps (newElection, fence, becomeLeader with a fenced majority and the best head, attach with the truncation decision of the code, append, write, restart) for any number of nodes with a fixed ensemble: in every reachable state, an entry that the leader of term t wrote in its own term and that a majority has acknowledged in term t (acknowledgements are history: they may arrive after the follower moved on) is at its offset in the log of every leader of every later term (leader_completeness), and stays there in every state reachable afterwards (acknowledged_write_survives); also log matching, one leader per term, attached followers hold a prefix of their leader's log. Proof by a 16-part inductive invariant over the history state (inv_step, about 1,000 lines), with the election step from C05's selection rule and C03's attach theorem; non-vacuity by kernel-evaluated runs (demo_run_meets_hypotheses) and the boundary by d44_attach_not_enabled. Put together with the coordinator's decision function (Props/Election.lean): from every reachable state, whatever majority answered in the current term and whichever node is preferred, the node chooseLeader installs already holds every acknowledged own-term entry of every earlier term (coordinator_installs_leader_holding_acknowledged). On M-Repl: a write is acknowledged only at or below the leader's quorum commit offset (C01_ack_only_after_commit). PARTIAL with respect to the property's quantifier: membership changes (node swap) are outside A-Repl - proved model history that loses acknowledged writes there (known finding D-41), reproduced on real node controllers - and so are histories through the D-44 attach case. Tied to the code by eleven facts and by differential runs with partitions, restarts and elections.",
     "level_note": "Proof for a fixed ensemble outside the D-44 case; PARTIAL for reconfiguration. Trusted: Lean kernel; extractor rules; protocol harness; the correspondence between A-Repl's steps and the implementation's RPC handling (same decision functions as M-Repl, not proved). Known finding D-41 (node swap election can install a leader without acknowledged writes).",
     "technique": "Lean 4 proof (inductive invariant over an abstract protocol model: leader completeness) + regenerated facts + differential correspondence on real controllers",
     "design_ref": "DESIGN.md section 6 C01",
